@@ -102,6 +102,7 @@ Section Units.
     wf_cfi (f_cfi_ents F) = true /\ wf_cfi (f_ehcfi_ents F) = true /\ wf_elf F = true.
   Proof.
     unfold wf_file in WF. apply andb_prop in WF. destruct WF as [W H6].
+    apply andb_prop in W. destruct W as [W H7].
     apply andb_prop in W. destruct W as [W H5]. apply andb_prop in W. destruct W as [W H4].
     apply andb_prop in W. destruct W as [W H3]. apply andb_prop in W. destruct W as [H1 H2]. auto 10.
   Qed.
@@ -114,6 +115,12 @@ Section Units.
 
   Lemma wf_file_lines : wf_lines F = true.
   Proof. apply wf_file_all. Qed.
+
+  Lemma wf_file_tus : tus_chain 0 (f_tus F) (f_types_size F) = true.
+  Proof.
+    unfold wf_file in WF. apply andb_prop in WF. destruct WF as [W H6].
+    apply andb_prop in W. destruct W as [W H7]. exact H7.
+  Qed.
 
   Lemma wf_file_cfi eh : wf_cfi (cfi_ents F eh) = true.
   Proof. destruct wf_file_all as (_ & _ & _ & H4 & H5 & _). destruct eh; assumption. Qed.
@@ -230,5 +237,25 @@ Section Units.
     unfold unit_containing. rewrite E. apply find_app_skip.
     intros x Hx. specialize (Hpre x Hx). unfold usize in Hpre.
     destruct (Z.ltb_spec a (ud_off x + uh_size (ud_hdr x))); [lia|]. apply andb_false_r.
+  Qed.
+  (* ---- type units tile .debug_types *)
+  Lemma tus_chain_props l : forall pos size, tus_chain pos l size = true ->
+    pos <= size /\ forall x, In x l -> pos <= tu_off x /\ 0 < tu_size (tu_hdr x) /\ tu_off x + tu_size (tu_hdr x) <= size.
+  Proof.
+    induction l as [|x r IH]; intros pos size H; cbn [tus_chain] in H.
+    - split; [lia|]. intros y [].
+    - apply andb_prop in H. destruct H as [H H3]. apply andb_prop in H. destruct H as [H1 H2].
+      destruct (IH _ _ H3) as [Hle Hr]. split; [lia|].
+      intros y [<-|Hin]; [lia|]. destruct (Hr y Hin) as (A & B & C). lia.
+  Qed.
+
+  Lemma tus_chain_find l : forall pos size x, tus_chain pos l size = true -> In x l ->
+    find (fun y => tu_off y =? tu_off x) l = Some x.
+  Proof.
+    induction l as [|y r IH]; intros pos size x H Hin; [destruct Hin|].
+    cbn [tus_chain] in H. apply andb_prop in H. destruct H as [H H3]. apply andb_prop in H. destruct H as [H1 H2].
+    cbn [find]. destruct Hin as [<-|Hin]; [rewrite Z.eqb_refl; reflexivity|].
+    destruct (tus_chain_props _ _ _ H3) as [_ Hr]. destruct (Hr x Hin) as (A & _).
+    destruct (Z.eqb_spec (tu_off y) (tu_off x)); [lia|]. eapply IH; eauto.
   Qed.
 End Units.
